@@ -31,7 +31,7 @@ func checkC16(c *Ctx, r *Report) {
 	// prerequisite: the skeletons are checked with "exactly the assumed prologue / %union body / epilogue" in place —
 	// that is only what the generator emits if those three texts reach the output as the user wrote them
 	includeSome(r, "C16.a", func(sub *Report) { c10b(c, sub); c10SectionExtents(c, sub) },
-		"arrives-unchanged", "value-is-the-text-between-the-markers", "closing-brace-balances-the-opening-one")
+		"arrives-unchanged", "value-is-the-text-between-the-markers", "closing-brace-balances-the-opening-one", "oneRule.ActionCode/writers")
 	// prerequisite: user code (GetToken, actions) is assumed to compile against the declared token names — that needs
 	// a constant for every named terminal the file declares, −1 tokens included (C11.c)
 	includeSome(r, "C16.a", func(sub *Report) { c11c(c, sub, st) }, "buildConstPart/filter", "buildConstPart/name-value-pair")
